@@ -292,6 +292,16 @@ fn check_headers(
             if want_empty_body && !g.body.is_empty() {
                 why.push("body not empty".into());
             }
+            if !want_empty_body {
+                // JSON kinds: content type and body survive the header handling
+                let ct = hdr(g, "content-type");
+                if ct.len() != 1 || ct[0] != b"application/json" {
+                    why.push("content-type".into());
+                }
+                if serde_json::from_slice::<u32>(&g.body).ok() != Some(1) {
+                    why.push("body".into());
+                }
+            }
             for (k, vals) in w {
                 let have: Vec<Vec<u8>> = hdr(g, k).iter().map(|v| v.to_vec()).collect();
                 if &have != vals {
